@@ -657,7 +657,10 @@ class Sym:
         skip.effects.append(('loop-skip', it, None, st, len(skip.conds)))
         one = leaf.clone()
         for nm in s._assigned_names(st.body):
-            one.env[nm] = ('loopvar', nm, st.lineno)
+            if nm in one.env:
+                one.env[nm] = ('loopvar', nm, st.lineno, one.env[nm])
+            else:
+                one.env[nm] = ('loopvar', nm, st.lineno)
         s.assign_target(st.target, ('elem', it), one, st)
         one.effects.append(('loop-enter', it, None, st, len(one.conds)))
         out = []
